@@ -52,7 +52,9 @@ def real_flow_scenario(case):
     from .c20 import FLOWS
 
     rng = rng_from(case["scenario_seed"])
-    t = make_target(pick(rng, ["gauss_box", "hug"]), 2, rng)
+    kind = pick(rng, ["gauss_box", "hug"])
+    # 2 or 3 dimensions by case (above 2 a flowjax proposal carries key-dependent permutation layers that the file must keep)
+    t = make_target(kind, 3 if case["run_index"] % 2 else 2, rng)
     fl, fit = FLOWS[case["real_flow"]]
     sk = {"sampler_kwargs": {"n_steps": 1}, "target_efficiency": float(rng.uniform(0.6, 0.85))}
     if rng.integers(2):
